@@ -31,7 +31,7 @@
 // algorithms hash the SAME content), the matching digest in upper-case hex /
 // one hex digit short / one too long, no tag or digest, garbage.
 //
-// Two more dimensions for listings up to a bound (thorough k<=5, quick k<=3; real
+// Two more dimensions for listings up to a bound (thorough k<=4, quick k<=3; real
 // pass: all), for references that reach the listing and N >= 1, as a full product:
 // 7 error kinds (what an unfetchable signature's fetch fails with - generic, oras
 // ErrNotFound bare/wrapped, context errors, size limit, notation error types - and
@@ -1326,7 +1326,7 @@ func main() {
 		r.SetDeadline(9 * time.Minute)
 		realN = 3
 		spaces = []spaceT{
-			{pScripted, four, 6, 6, 5},
+			{pScripted, four, 6, 6, 4},
 			{pSkip, four, 4, 4, -1},
 			{pReal, three, 3, 3, 3},
 		}
